@@ -818,6 +818,25 @@ func (c *Conn) readLoop() {
 		// promising anything. Ignoring the frame would leave it holding a
 		// stream we are never going to read.
 		// https://httpwg.org/specs/rfc7540.html#rfc.section.6.5.2
+		// readNext has already acted on a GOAWAY. With no request left waiting
+		// for an answer there is nothing more to read for.
+		if fr.Type() == FrameGoAway && fr.Stream() == 0 {
+			var gerr error
+			if c.inFlight() == 0 {
+				gerr = fr.Body().(*GoAway).Copy()
+			}
+
+			ReleaseFrameHeader(fr)
+
+			if gerr != nil {
+				c.setLastErr(gerr)
+
+				break
+			}
+
+			continue
+		}
+
 		if fr.Type() == FramePushPromise {
 			c.setLastErr(NewGoAwayError(ProtocolError, "server pushed with push disabled"))
 			ReleaseFrameHeader(fr)
@@ -1560,7 +1579,10 @@ loop:
 			// ones at or below it are left to complete.
 			c.failAbove(ga.stream)
 
-			if c.inFlight() == 0 {
+			// Nothing can still be owed an answer below stream 1. Otherwise
+			// the frame goes to the caller, and the read loop leaves once no
+			// request is waiting any more.
+			if ga.stream == 0 {
 				_ = c.c.Close()
 				err = ga.Copy()
 			}
